@@ -130,7 +130,7 @@ static void add_coeffs(nset* S, const unsigned with_coin[16], const unsigned wit
 }
 
 typedef struct hit { int kind; long offset; needle nd; } hit;
-static uint64_t g_bytes_scanned, g_needles_searched, g_static_scanned;
+static uint64_t g_bytes_scanned, g_needles_searched, g_static_scanned, g_tls_scanned;
 static int scan(const job* j, const nset* S, hit* hits, int cap) {
     uint8_t* lo = stk; uint8_t* hi = (uint8_t*)j->frame_lo;
     while (lo < hi && *lo == 0xA5) ++lo;                 /* untouched part of the stack */
@@ -361,6 +361,23 @@ static void one_case(const shape* sh, pv_rng* rng, bool control) {
             }
         }
     }
+    /* (iv) the monitored thread's own thread-local storage: glibc places the TLS block and the thread descriptor at the top
+     * of the stack we supplied, above the trampoline frame; after the join it is dead memory we own */
+    {
+        uint8_t* lo = (uint8_t*)j.frame_lo; uint8_t* hi = stk + STK_SIZE;
+        g_tls_scanned += (uint64_t)(hi - lo);
+        for (int i = 0; i < S.n; ++i) {
+            const needle* x = &S.v[i];
+            if (x->kind == N_INDICES || x->n < 6) continue;
+            uint8_t* p = memmem(lo, (size_t)(hi - lo), x->b, (size_t)x->n);
+            if (p) {
+                if (control) { PV_COUNT("control.tls_hits", 1); break; }
+                char key[200]; snprintf(key, sizeof key, "C16/thread-local-residue/%s/%s", API_NAME[sh->api], NKIND[x->kind]);
+                pv_violation(key, "%s path=%s lang=%s: %d-byte needle %s found in the thread's TLS/descriptor area, %ld bytes above the call frame", API_NAME[sh->api], PATH_NAME[sh->path], pv_langs[sh->lang].name_en, x->n, pv_hex(x->b, (size_t)x->n), (long)(p - lo));
+                break;
+            }
+        }
+    }
     /* (ii) dead stack */
     int nh = scan(&j, &S, hits, 64);
     bool distinct_done = false;
@@ -430,6 +447,7 @@ static void fini(void) {
     pv_countf(g_bytes_scanned, "scan.bytes");
     pv_countf(g_needles_searched, "scan.needles");
     pv_countf(g_static_scanned, "scan.static_bytes");
+    pv_countf(g_tls_scanned, "scan.thread_local_area_bytes");
 }
 int main(int argc, char** argv) {
     static const pv_section secs[] = { { "scan", n_scan, run_scan }, { "control", n_control, run_control } };
